@@ -651,7 +651,7 @@ fn inherit_distance(doc: &Document, page: ObjectId) -> Option<usize> {
 
 fn run_program(c: &mut Ctx, r: &mut Rng, stream: &str, safe_only: bool, max_len: usize) {
     let hard = stream == "programs_hard";
-    let o = Opts { pages_in_id_order: r.chance(1, 2), bookmarks: false, dangling: if r.chance(1, 3) { Dangling::Safe } else { Dangling::None }, malformed: false, max_other: 8, deep_tree: hard };
+    let o = Opts { pages_in_id_order: r.chance(1, 2), bookmarks: false, dangling: if r.chance(1, 3) { Dangling::Safe } else { Dangling::None }, malformed: false, max_other: 8, deep_tree: hard, loose_bookmarks: false };
     let mut g = gen_doc(r, &o);
     // hard: references nested up to 128 deep that are the only way to their target; references with a generation
     // the stored object does not have; resources inherited from two and more levels up
